@@ -289,6 +289,9 @@ def r12_5(run):
                 crlf = bool(consts) and all(set(c if isinstance(c, str) else c.decode('latin1')) <= set('\r\n') for c in consts)
                 typ = isinstance(a, ast.Call) and dotted(a.func) == 'isinstance'
                 arity = isinstance(a, ast.BinOp) and isinstance(a.op, ast.Mod) and 'len(' in src(a)
+                if isinstance(a, ast.Compare) and len(a.ops) == 1 and isinstance(a.left, ast.BinOp) and isinstance(a.left.op, ast.Mod) and 'len(' in src(a.left) \
+                        and isinstance(const(a.comparators[0]), int):
+                    arity = True        # len(args) % 2 != 0 / == 1 / ...
                 run.ob('R12.5', u, a, 'a command is refused only for CR/LF, an odd argument count or a wrong type', crlf or typ or arity,
                        slot='refusal:%s:%s' % (u.name, src(a)[:30]),
                        message='%s refuses a command when %s%s: values the property covers (any printable text, tabs, quotes, backslashes) produce no SETCONF line'
